@@ -6,6 +6,7 @@ import (
 	"os"
 	"strings"
 	"sync"
+	"sync/atomic"
 	"testing"
 	"time"
 
@@ -23,7 +24,7 @@ func runLedgerRT(t *testing.T, seed int64, log *traceLog) {
 	t.Helper()
 	meta := Meta{
 		DefaultLife: 60, PermTO: 3, ChanTO: 5, MaxLife: 3600, InboundMTU: 1600, // in ticks of 100 ms
-		Fam: map[string]int{"A": 4}, ListenFam: map[string]int{"c1": 4}, Clients: []string{"c1"}, Users: []string{"u1"}, PeerPorts: []int{1},
+		Fam: map[string]int{"A": 4}, ListenFam: map[string]int{"c1": 4}, Clients: []string{"c1"}, Users: []string{"u1"}, PeerPorts: []int{1, 2, 3},
 		Extra: map[string]string{"tick_ms": "100"},
 	}
 	w, err := NewWorld(meta, seed*4)
@@ -32,8 +33,12 @@ func runLedgerRT(t *testing.T, seed int64, log *traceLog) {
 	}
 	defer w.Close()
 	log.add(map[string]any{"e": "Reset", "seed": seed})
+	var zGone atomic.Bool
 	w.slowDeleted = func(kind, key string) {
 		log.add(map[string]any{"e": "Ev", "kind": kind, "key": key})
+		if kind == "chan-" && key == "16386" {
+			zGone.Store(true)
+		}
 		time.Sleep(150 * time.Millisecond) // the operator's callback is slow
 	}
 	if err := w.mintNonce(func() { time.Sleep(10 * time.Millisecond) }); err != nil {
@@ -218,6 +223,93 @@ func runLedgerRT(t *testing.T, seed int64, log *traceLog) {
 		}
 	}()
 	wg.Wait()
+	time.Sleep(400 * time.Millisecond) // the callbacks of that teardown finish
+
+	// three channels, two of which lapse in the same instant while the operator's callback is slow (their removals
+	// overlap); the third, bound later, is still alive then: what the client submits on it must arrive, unless its
+	// own deletion has been announced by then.
+	if !request(w.authed("u1", txid(), stun.MethodAllocate, proto.RequestedTransport{Protocol: proto.ProtoUDP})) {
+		failed("Allocate")
+
+		return
+	}
+	relay = w.relayOf[c]
+	bind := func(n int, port int) bool {
+		a := w.peerAddr([]any{"A", port})
+		if !request(w.authed("u1", txid(), stun.MethodChannelBind, proto.ChannelNumber(n), proto.PeerAddress{IP: a.IP, Port: a.Port})) { //nolint:gosec
+			failed("ChannelBind")
+
+			return false
+		}
+		log.add(map[string]any{"e": "Ev", "kind": "chan+", "key": fmt.Sprint(n)})
+
+		return true
+	}
+	t0 := time.Now()
+	if !bind(0x4000, 1) || !bind(0x4001, 2) {
+		return
+	}
+	time.Sleep(time.Until(t0.Add(450 * time.Millisecond)))
+	if !bind(0x4002, 3) {
+		return
+	}
+	// the first two lapse at 500 ms; their removals (150 ms of callback each, one after the other under the table's
+	// lock) are over at 800 ms; the third lives until 950 ms
+	time.Sleep(time.Until(t0.Add(820 * time.Millisecond)))
+	cd := proto.ChannelData{Number: 0x4002, Data: []byte("probe-z|client")}
+	cd.Encode()
+	log.add(map[string]any{"e": "Probe", "n": "16386", "id": "probe-z"})
+	w.sendFromClient(c, cd.Raw)
+	arrived := false
+	// (waits until the datagram is there, or the channel's own deletion has been announced, or two seconds: a
+	// handler held up behind a slow callback is not a loss)
+	for dl := time.Now().Add(2 * time.Second); time.Now().Before(dl) && !arrived && !zGone.Load(); time.Sleep(time.Millisecond) {
+		for _, pk := range w.peers["A/3"].Drain() {
+			arrived = arrived || strings.HasPrefix(string(pk.Data), "probe-z|")
+		}
+	}
+	log.add(map[string]any{"e": "ProbeEnd", "n": "16386", "id": "probe-z", "arrived": arrived})
+	time.Sleep(600 * time.Millisecond) // everything of this phase lapses and is announced
+
+	// the server is closed while a peer keeps sending to the relayed address and the operator's callbacks are slow:
+	// afterwards nothing is left, and every allocation that was announced has been announced deleted
+	if !request(w.authed("u1", txid(), stun.MethodCreatePermission, proto.PeerAddress{IP: pa.IP, Port: pa.Port})) {
+		failed("CreatePermission")
+
+		return
+	}
+	stopTraffic := make(chan struct{})
+	var wg3 sync.WaitGroup
+	wg3.Add(1)
+	go func() {
+		defer wg3.Done()
+		for i := 0; ; i++ {
+			select {
+			case <-stopTraffic:
+				return
+			default:
+			}
+			_, _ = peer.WriteTo([]byte(fmt.Sprintf("down-%d|peer", i)), relay)
+			time.Sleep(time.Millisecond)
+		}
+	}()
+	time.Sleep(30 * time.Millisecond)
+	_ = w.Srv.Close()
+	time.Sleep(500 * time.Millisecond)
+	close(stopTraffic)
+	wg3.Wait()
+	created, deleted := 0, 0
+	w.evMu.Lock()
+	for _, e := range w.Events {
+		switch e.Kind {
+		case "alloc+":
+			created++
+		case "alloc-":
+			deleted++
+		}
+	}
+	w.evMu.Unlock()
+	log.add(map[string]any{"e": "Down", "count": w.Srv.AllocationCount(), "created": created, "deleted": deleted})
 }
 
 // TestLedgerRT records VERIF_NTRACES executions into VERIF_TRACE_OUT.
